@@ -159,7 +159,12 @@ func (s *SweepingProvider) provideRegions(regions []keyspace.Region, addrInfo pe
   ghostvar $sent int = 0
   modifies *
   ensures [internal-every-sent-region-rescheduled] imp(reprovide, $resched == $sent)
-  loop over regions invariant imp(reprovide, $resched == $sent)
+  # every region of a reprovide was claimed by the caller: its claim is released
+  # exactly once on every path - also for a region that holds no keys
+  ghostvar $rel int = 0
+  ensures [internal-every-claim-released] imp(reprovide, $rel == len(regions))
+  loop over regions invariant imp(reprovide, $resched == $sent && $rel == $key)
+  ghost at before call(releaseRegionReprovide): assert($arg0 == r.Prefix && reprovide); $rel = $rel + 1
   ghost at before call(AllocateToKClosest): assert($arg0 == r.Keys && $arg1 == r.Peers && $arg2 == s.replicationFactor)
   ghost at call(AllocateToKClosest): $alloc = $ret0
   ghost at before call(sendProviderRecords): assert($arg0 == $alloc && $arg1 == addrInfo); $sent = $sent + 1
@@ -276,4 +281,47 @@ funclit 0 in (s *SweepingProvider) Close() error
   ghost at before call(cleanup): assert(tagged("wgwait:s.wg") && $arg0 == s.cleanupFuncs)
 
 # the run loop leaves only on the done signal and reports to the wait group
+
+# ---- offline / online (C17) -------------------------------------------------------
+func (s *SweepingProvider) approxPrefixLen()
+  modifies *
+func (s *SweepingProvider) RefreshSchedule() error
+  modifies *
+func (s *SweepingProvider) catchupPendingWork()
+  modifies *
+func (s *SweepingProvider) loadRecentlyReprovidedRegions(now time.Time) (*trie.Trie[bitstr.Key, struct{}], error)
+  modifies *
+func (s *SweepingProvider) enqueueExpiredRegionsNoLock(recentlyReprovided *trie.Trie[bitstr.Key, struct{}])
+  modifies *
+func (s *SweepingProvider) scheduleNextReprovideNoLock(prefix bitstr.Key, timeUntilReprovide time.Duration)
+  modifies *
+func (s *SweepingProvider) timeUntil(d time.Duration) time.Duration
+  modifies *
+
+# Coming back online after having been Offline (the prefix-length cache was
+# invalidated) - not only the very first time - re-measures the prefix length
+# and then rebuilds the schedule from the keystore (keys started while offline
+# were only stored there), before catching up on pending work. Going offline
+# clears the queue and invalidates the cache.
+func (s *SweepingProvider) onOnline()
+  props C17
+  ghostvar $was bool = false
+  ghostvar $boot bool = false
+  ghostvar $measured bool = false
+  ghostvar $refreshed bool = false
+  ghostvar $caught bool = false
+  modifies *
+  ensures [internal-back-online-rebuilds-the-schedule] imp($caught && ($was || !$boot), $measured && $refreshed)
+  ghost at assign(wasOffline): $was = wasOffline
+  ghost at assign(bootstrapped): $boot = bootstrapped
+  ghost at call(approxPrefixLen): $measured = true
+  ghost at call(RefreshSchedule): assert($measured); $refreshed = true
+  ghost at call(catchupPendingWork): $caught = true
+
+func (s *SweepingProvider) onOffline()
+  props C17
+  ghostvar $cleared bool = false
+  modifies *
+  ensures [internal-offline-clears-queue-and-invalidates-estimate] $cleared && s.cachedAvgPrefixLen == -1
+  ghost at call(Clear): $cleared = true
 @*/
